@@ -40,6 +40,17 @@ func (vc *VC) run() (err error) {
 		vc.assumeType(st, n, p.Type())
 		vc.paramVals[p.Name()] = Val{T: n, S: vc.sortOf(p.Type()), Ty: p.Type()}
 	}
+	// captured variables of a function literal: cells owned by the enclosing function, visible by name
+	if len(fn.FreeVars) > 0 {
+		st.fcells = map[*ssa.FreeVar]string{}
+		for _, fv := range fn.FreeVars {
+			et := fv.Type().(*types.Pointer).Elem()
+			t := vc.declareNamed("fv_"+sanitize(fv.Name()), vc.sortOf(et))
+			vc.assumeType(st, t, et)
+			st.fcells[fv] = t
+			vc.paramVals[fv.Name()] = Val{T: t, S: vc.sortOf(et), Ty: et}
+		}
+	}
 	vc.entry = st.clone()
 	vc.findLoops()
 	vc.sourceOrdinals()
@@ -291,6 +302,7 @@ func (vc *VC) findLoops() {
 
 // loopMods collects what a loop may modify.
 type modSet struct {
+	fcells map[*ssa.FreeVar]bool
 	cells  map[*ssa.Alloc]bool
 	comps  map[string]string // component -> sort
 	all    bool
@@ -299,7 +311,7 @@ type modSet struct {
 }
 
 func newModSet() *modSet {
-	return &modSet{cells: map[*ssa.Alloc]bool{}, comps: map[string]string{}, iters: map[ssa.Value]bool{}}
+	return &modSet{cells: map[*ssa.Alloc]bool{}, comps: map[string]string{}, iters: map[ssa.Value]bool{}, fcells: map[*ssa.FreeVar]bool{}}
 }
 
 func (vc *VC) msMap(ms *modSet, mt *types.Map) {
@@ -424,7 +436,7 @@ func (vc *VC) addrMods(a ssa.Value, ms *modSet) {
 	case *ssa.Global:
 		ms.comps["G_"+x.Pkg.Pkg.Name()+"_"+x.Name()] = vc.sortOf(x.Type().(*types.Pointer).Elem())
 	case *ssa.FreeVar:
-		ms.all = true
+		ms.fcells[x] = true
 	default:
 		// store through a computed pointer: pointee type decides
 		if p, ok := a.Type().Underlying().(*types.Pointer); ok && isStructLike(p.Elem()) {
@@ -717,6 +729,13 @@ func (vc *VC) enterLoop(li *loopInfo, pre *State) (*State, error) {
 				head.cells[c] = vc.declare("cell_"+c.Comment, vc.sortOf(ty))
 			}
 		}
+		for fv := range ms.fcells {
+			if _, ok := head.fcells[fv]; ok {
+				et := fv.Type().(*types.Pointer).Elem()
+				head.fcells[fv] = vc.declare("fv_"+sanitize(fv.Name())+"_loop", vc.sortOf(et))
+				vc.assumeType(head, head.fcells[fv], et)
+			}
+		}
 		for it := range ms.iters {
 			if _, ok := head.iters[it]; ok {
 				ks := "Int"
@@ -937,6 +956,13 @@ func (vc *VC) addrOf(st *State, v ssa.Value) *Addr {
 	case *ssa.Global:
 		ty := x.Type().(*types.Pointer).Elem()
 		return &Addr{Kind: "global", Comp: "G_" + x.Pkg.Pkg.Name() + "_" + x.Name(), Sort: vc.sortOf(ty), Typ: ty}
+	case *ssa.FreeVar:
+		if st.fcells != nil {
+			if _, ok := st.fcells[x]; ok {
+				ty := x.Type().(*types.Pointer).Elem()
+				return &Addr{Kind: "fcell", FV: x, Sort: vc.sortOf(ty), Typ: ty}
+			}
+		}
 	}
 	// a plain pointer value: address of an object
 	if p, ok := v.Type().Underlying().(*types.Pointer); ok {
@@ -1089,6 +1115,28 @@ func (vc *VC) exec(st *State, ins ssa.Instruction) error {
 			// a package-level struct variable: its storage is a fixed non-nil object
 			base = vc.declareNamed("gaddr_"+g.Pkg.Pkg.Name()+"_"+g.Name(), "Int")
 			embedded = true
+		}
+		if vc.inlineDepth == 0 && vc.spec != nil && len(vc.spec.Sites) > 0 {
+			// "at fieldaddr Type.field#n: assert e" - e sees the dereferenced pointer as base (nil-safety of one access)
+			fname := fieldName(x.X.Type(), x.Field)
+			for _, ss := range vc.spec.Sites {
+				if ss.AnchorKind != "fieldaddr" || ss.Anchor != fname || (ss.N != 0 && ss.N != vc.faOrd[x]) {
+					continue
+				}
+				vc.siteHits[ss]++
+				env := vc.baseEnv(st)
+				vc.localVars(st, env.vars, nil)
+				env.vars["base"] = Val{T: base, S: "Int", Ty: x.X.Type()}
+				t, err := env.compileBool(ss.Clause.E)
+				if err != nil {
+					return fmt.Errorf("%s: site fieldaddr %s: %v", vc.key, fname, err)
+				}
+				name := fmt.Sprintf("site@fieldaddr(%s)#%d", fname, vc.faOrd[x])
+				if ss.Clause.Label != "" {
+					name += "[" + ss.Clause.Label + "]"
+				}
+				vc.oblige(st, name, "site", t, ss.Clause.Text, ss.Clause.Props)
+			}
 		}
 		if !embedded { // storage embedded in another object is never nil by itself
 			vc.panicOb(st, "nil", "field("+fieldName(x.X.Type(), x.Field)+")", sx("not", sx("=", base, "0")))
@@ -1293,6 +1341,8 @@ func (vc *VC) load(st *State, a *Addr, resTy types.Type) string {
 		// cell not live on this path (allocated in a sibling branch): unconstrained
 		t := vc.declare("deadcell", a.Sort)
 		return t
+	case "fcell":
+		return st.fcells[a.FV]
 	case "field":
 		t := sx("select", vc.heapGet(st, a.Comp, "(Array Int "+a.Sort+")"), a.Ref)
 		return t
@@ -1332,6 +1382,8 @@ func (vc *VC) store(st *State, addr ssa.Value, val string, valTy types.Type, val
 	switch a.Kind {
 	case "cell":
 		st.cells[a.Cell] = val
+	case "fcell":
+		st.fcells[a.FV] = val
 	case "field":
 		vc.writeCheck(st, a.Comp, a.Ref)
 		sortC := "(Array Int " + a.Sort + ")"
@@ -2046,6 +2098,25 @@ func (vc *VC) sourceOrdinals() {
 			}
 			by[k] = append(by[k], c)
 			pos[c] = ins.Pos()
+		}
+	}
+	// field address computations, numbered per field in source order
+	vc.faOrd = map[*ssa.FieldAddr]int{}
+	fas := map[string][]*ssa.FieldAddr{}
+	for _, b := range vc.fn.Blocks {
+		for _, ins := range b.Instrs {
+			if fa, ok := ins.(*ssa.FieldAddr); ok {
+				if _, isStruct := fa.X.Type().Underlying().(*types.Pointer); isStruct {
+					n := fieldName(fa.X.Type(), fa.Field)
+					fas[n] = append(fas[n], fa)
+				}
+			}
+		}
+	}
+	for _, l := range fas {
+		sort.SliceStable(l, func(i, j int) bool { return l[i].Pos() < l[j].Pos() })
+		for i, fa := range l {
+			vc.faOrd[fa] = i + 1
 		}
 	}
 	for _, cs := range by {
